@@ -193,7 +193,7 @@ def main(args):
         for ue in (0, 1):
             for sg in (1, -1):
                 parts.append(('formatter', (lo, hi, ue, sg)))
-    parts += [('report', (g,)) for g in (('G2', 'G9') if ck.tier == 'quick' else ('G2', 'G5', 'G9', 'G10', 'G12'))]
+    parts += [('report', (g,)) for g in (('G2', 'G9', 'G29') if ck.tier == 'quick' else ('G2', 'G5', 'G9', 'G10', 'G12', 'G29', 'G16'))]
     parts += [('load_lines', (g, k)) for g in ('G11', 'G2') for k in ('skin', 'coat')]
     run_parallel(ck, 'checks.c19', parts)
     ck.assumptions += ['f is a real number (IEEE rounding of f itself is not modelled); round-half-even of the C formatter is '
@@ -355,6 +355,29 @@ def report(ck, sh, mm, gname):
         want = sorted(p.idx for p in m.pulses if p.geo[0] is p.geo[1])
         ok.append(z3.BoolVal(sorted(seen) == want))
         g.append(('current table: one row per (non-junction) pulse; magnitude/phase agree with real/imaginary', z3.And(*ok)))
+        # ---- junction rows: the current of a pulse that joins exactly two wire ends is carried (up to the direction sign) by the J rows of
+        # both ends; their magnitude/phase columns agree with their real/imaginary columns (sums at larger junctions: C09)
+        jrows = []
+        for ln in text['cur'].split('\n'):
+            f_ = ln.split()
+            if len(f_) == 5 and f_[0] == 'J':
+                jrows.append(tuple(rf(x) for x in f_[1:]))
+        ok = []
+        for re_, im_, mag, ph in jrows:
+            ok.append(eq_term(SR.lift(mag) * mag, SR.lift(re_) * re_ + SR.lift(im_) * im_))
+            ok.append((SR.lift(mag) >= 0).t)
+        ends = [np.asarray(e, dtype=float) for w in m.geo for e in w.endpoints]
+        for p in m.pulses:
+            if p.geo[0] is p.geo[1]:
+                continue
+            pt = np.asarray(p.point, dtype=float)
+            if sum(1 for e in ends if np.linalg.norm(e - pt) < 1e-6) != 2:
+                continue
+            c_ = I[p.idx]
+            hits = [z3.Or(z3.And(_within(re_, c_.re), _within(im_, c_.im)), z3.And(_within(re_, -c_.re), _within(im_, -c_.im))) for re_, im_, mag, ph in jrows]
+            ok.append(z3.AtLeast(*hits, 2) if len(hits) >= 2 else z3.BoolVal(False))
+        if jrows or ok:
+            g.append(('current table: junction rows carry the current of their two-wire junction pulse; magnitude agrees with real/imaginary', z3.And(*ok) if ok else z3.BoolVal(True)))
         # ---- far field dB rows
         rows = [ln.split() for ln in text['ffdb'].split('\n') if ln and ln.split()[0][:1] in '\x01-0123456789' and len(ln.split()) == 5]
         ok = [z3.BoolVal(len(rows) == 4)]
@@ -484,6 +507,28 @@ def replay_report(mm, gname, c, goal):
                                 return ('C19:far-field-absolute:%20.3E', 'V/m table prints |E| = %r as %s (4 significant digits)'
                                         % (val, rows[i][col]), dict(kind='report', goal=goal))
                     i += 1
+        return None
+    if goal.startswith('current table: junction rows'):
+        jr = []
+        for ln in m.currents_as_mininec().split('\n'):
+            f_ = ln.split()
+            if len(f_) == 5 and f_[0] == 'J':
+                jr.append(tuple(float(x) for x in f_[1:]))
+        for re_, im_, mag, ph in jr:
+            if not ok(mag, abs(complex(re_, im_))) and abs(mag - abs(complex(re_, im_))) > 1e-6 * abs(mag):
+                return ('C19:current-table:junction-row', 'junction row prints magnitude %r for %r' % (mag, complex(re_, im_)), dict(kind='report', goal=goal))
+        ends = [np.asarray(e, dtype=float) for w in m.geo for e in w.endpoints]
+        for p in m.pulses:
+            if p.geo[0] is p.geo[1]:
+                continue
+            pt = np.asarray(p.point, dtype=float)
+            if sum(1 for e in ends if np.linalg.norm(e - pt) < 1e-6) != 2:
+                continue
+            cur = m.current[p.idx]
+            hits = sum(1 for re_, im_, mag, ph in jr if (ok(re_, cur.real) and ok(im_, cur.imag)) or (ok(re_, -cur.real) and ok(im_, -cur.imag)))
+            if hits < 2:
+                return ('C19:current-table:junction-pulse-missing', '%s: the current %r of junction pulse %d is carried by %d junction rows instead of the two wire ends it joins'
+                        % (gname, cur, p.idx + 1, hits), dict(kind='report', goal=goal))
         return None
     if goal.startswith('current table'):
         for ln in m.currents_as_mininec().split('\n'):
